@@ -477,6 +477,22 @@ def job_spoof(job, tmp):
     return {"cut": k, "write_len": len(w), "nblobs_after_crash": nb0, "nblobs_after_two_appends": int(sa.nblobs)}
 
 
+def job_resume1(job, tmp):
+    """restart from the last intact snapshot of a crash image, run the ops, take the stream and append ONCE: returns the image,
+    the stream and the file after the append, so that the model's save_append (corruption test + repair walk + write) can be
+    compared byte for byte with what the library did on the damaged file"""
+    fname = job["file"]
+    img = open(fname, "rb").read()
+    sa = rebound.Simulationarchive(fname, process_warnings=False)
+    sim = sa[-1]; del sa
+    for op in job["ops"]:
+        L.apply_op(rebound, sim, op, fname)
+    st = L.stream_of(rebound, sim)
+    sim.save_to_file(fname)
+    E = FT["end"][0]
+    return {"stream": st.hex(), "after": L.mask_padding(open(fname, "rb").read(), E, 64, True).hex(), "image": L.mask_padding(img, E, 64, True).hex()}
+
+
 def job_cycle(job, tmp):
     """repeated crash/restart cycles: restart from the last intact snapshot, redo the next segment, append; the append is cut
     at the given fractions of its write (each fraction = one more crash), finally completed.  Returns snapshot hashes."""
@@ -509,7 +525,7 @@ def main():
     with tempfile.TemporaryDirectory(prefix="c06drv") as tmp:
         for job in jobs:
             try:
-                r = {"hist": job_hist, "auto": job_auto, "open": job_open, "resume": job_resume, "spoof": job_spoof, "cycle": job_cycle, "many": job_many, "attach": job_attach, "autocrash": job_autocrash, "autoF": job_autoF, "autolive": job_autolive, "automix": job_automix}[job["kind"]](job, tmp)
+                r = {"hist": job_hist, "auto": job_auto, "open": job_open, "resume": job_resume, "spoof": job_spoof, "cycle": job_cycle, "resume1": job_resume1, "many": job_many, "attach": job_attach, "autocrash": job_autocrash, "autoF": job_autoF, "autolive": job_autolive, "automix": job_automix}[job["kind"]](job, tmp)
             except Exception as e:
                 import traceback
                 r = {"exception": "%r" % (e,), "tb": traceback.format_exc()[-600:]}
